@@ -1013,6 +1013,9 @@ func (w *World) errorDiscipline(P string, pull *ssa.Function, tokenMethod string
 		if pullErr == nil {
 			return
 		}
+		if es := storeEventSource(fn); es != nil && len(es.pulls) > 1 && es.err != nil {
+			pullErr = es.err // several Pull sites feed one loop variable
+		}
 		n++
 		eofGuardedNil, otherReturned := false, false
 		allInstrs(fn, func(in ssa.Instruction) {
